@@ -3,9 +3,10 @@
 //! comes back as integers (fixed point / exact-integer flags / order keys). No oracle logic here.
 //!
 //! kinds
-//!   "traj"    : KMeansInit::Precomputed(c0), n_runs(1), tolerance tol, max_n_iterations(m) for every
+//!   "traj"    : KMeansInit::Precomputed(c0), n_runs(inp.nruns), tolerance tol, max_n_iterations(m) for every
 //!               m in inp.ms  -> one "fit" event per budget (the property's own observation method)
-//!   "restart" : seeded initialiser (random / k-means++ / k-means||), n_runs(r) for r = 1..inp.runs from
+//!   "restart" : seeded initialiser (random / k-means++ / k-means||), for every iteration budget in
+//!               inp.maxits: n_runs(r) for r = 1..inp.runs from
 //!               the same seed -> one "multi" event per r, and one "single" event per r: a 1-run fit
 //!               whose generator starts where the generator of the (r-1)-run fit stopped (i.e. the
 //!               r-th restart on its own; the generator handed to linfa shares its state with the harness)
@@ -110,11 +111,13 @@ fn run_traj<F: Float, D: Distance<F>>(inp: &Value, dist: D) -> Vec<Value> {
     let qs: Array2<F> = arr(&qs_i, f);
     let k = c0.nrows();
     let view_form = gets(inp, "form") == "view";
+    // every restart starts from the same precomputed centroids, so n_runs > 1 must not change anything
+    let nruns = geti(inp, "nruns") as usize;
     let mut out = Vec::new();
     for m in ivec(&inp["ms"]) {
         let params = KMeans::params_with(k, Xoshiro256Plus::seed_from_u64(7), dist.clone())
             .init_method(KMeansInit::Precomputed(c0.clone()))
-            .n_runs(1)
+            .n_runs(nruns)
             .tolerance(tol_of::<F>(inp))
             .max_n_iterations(m as u64);
         let res = guarded(|| {
@@ -175,10 +178,12 @@ fn run_restart<F: Float, D: Distance<F>>(inp: &Value, dist: D) -> Vec<Value> {
     let k = geti(inp, "k") as usize;
     let seed = geti(inp, "seed") as u64;
     let runs = geti(inp, "runs") as usize;
-    let maxit = geti(inp, "maxit") as u64;
     let init = gets(inp, "init");
     let mut out = Vec::new();
-    // generator state after the (r-1)-run fit = where restart r starts
+    for (bi, maxit) in ivec(&inp["maxits"]).into_iter().enumerate() {
+    let maxit = maxit as u64;
+    let b = bi + 1;
+    // generator state after the (r-1)-run fit (same budget) = where restart r starts
     let mut state_before = Xoshiro256Plus::seed_from_u64(seed);
     for r in 1..=runs {
         // the r-th restart alone
@@ -190,6 +195,7 @@ fn run_restart<F: Float, D: Distance<F>>(inp: &Value, dist: D) -> Vec<Value> {
                 .max_n_iterations(maxit);
             let mut o = vh::serde_json::Map::new();
             o.insert("ev".into(), json!("single"));
+            o.insert("b".into(), json!(b));
             o.insert("r".into(), json!(r));
             match guarded(|| params.fit(&DatasetBase::from(pts.clone())).map(|model| {
                 let mut oo = vh::serde_json::Map::new();
@@ -220,6 +226,7 @@ fn run_restart<F: Float, D: Distance<F>>(inp: &Value, dist: D) -> Vec<Value> {
             .max_n_iterations(maxit);
         let mut o = vh::serde_json::Map::new();
         o.insert("ev".into(), json!("multi"));
+        o.insert("b".into(), json!(b));
         o.insert("r".into(), json!(r));
         match guarded(|| params.fit(&DatasetBase::from(pts.clone())).map(|model| {
             let mut oo = vh::serde_json::Map::new();
@@ -241,6 +248,7 @@ fn run_restart<F: Float, D: Distance<F>>(inp: &Value, dist: D) -> Vec<Value> {
         }
         out.push(Value::Object(o));
         state_before = shared.snapshot();
+    }
     }
     out.push(json!({"ev": "end"}));
     out
